@@ -9,12 +9,25 @@ FOURIER = ['Periodogram', 'pcorrelogram']
 SUBSPACE = ['pmusic', 'pev']
 
 
+# every name create_window accepts without a mandatory shape parameter (a fixed list: the relations the cross-cutting properties state hold
+# for any real symmetric taper, and a change may concern ONE named window only)
+ALL_WINDOWS = ['bartlett', 'bartlett_hann', 'blackman', 'blackman_harris', 'blackman_nuttall', 'bohman', 'cauchy', 'chebwin', 'cosine',
+               'flattop', 'gaussian', 'hamming', 'hann', 'hanning', 'kaiser', 'lanczos', 'nuttall', 'parzen', 'poisson', 'poisson_hanning',
+               'rectangle', 'rectangular', 'riemann', 'riesz', 'sinc', 'sine', 'taylor', 'triangular', 'tukey']
+
+
+def pick_window(rng, usual):
+    """one of the usual names half of the time, any admissible name otherwise"""
+    u = str(rng.choice(usual)); a = ALL_WINDOWS[int(rng.integers(0, len(ALL_WINDOWS)))]
+    return u if rng.integers(0, 2) else a
+
+
 def default_cfg(cls, N, rng, cplx, tone=False):
     """order-like parameters in the documented domain of the class (small, well inside the domain)"""
     if cls == 'Periodogram':
-        return {'window': str(rng.choice(['hann', 'hamming', 'rectangular', 'blackman']))}
+        return {'window': pick_window(rng, ['hann', 'hamming', 'rectangular', 'blackman'])}
     if cls == 'pcorrelogram':
-        return {'lag': int(rng.integers(2, max(3, min(N // 2, 12)))), 'window': str(rng.choice(['hamming', 'hann', 'rectangular']))}
+        return {'lag': int(rng.integers(2, max(3, min(N // 2, 12)))), 'window': pick_window(rng, ['hamming', 'hann', 'rectangular'])}
     if cls in ('pburg', 'pyule', 'pcovar', 'pmodcovar'):
         return {'order': int(rng.integers(1, max(2, min(N // 4, 8))))}
     if cls == 'parma':
